@@ -1,6 +1,7 @@
 """Texts for MANIFEST.json (level claimed, trusted base, technique) per property."""
 
 HOOK_COMMITS = ["eb8809f"]
+FIX_COMMITS = ["61faa54", "2e82d91", "4439b53", "6f67524", "2ca778f"]
 
 NOT_APPLICABLE_REASON = {}
 
@@ -13,5 +14,13 @@ META = {
         "design_ref": "DESIGN.md §6 C05",
         "note": "Trusts the harness's own list of written ops as oracle; format limits (offset < 2^31, strings <= 65535 bytes) are respected by the generator.",
         "technique": "property-based testing (rapid) + bounded exhaustive enumeration + native go fuzz, round-trip oracle",
+    },
+    "C01": {
+        "text": ("Model-based stateful property testing: random histories over generated schemas are executed against the real collection and an "
+                 "independent reference model; every committed value is read back through all public reader paths and compared bit-for-bit / "
+                 "byte-for-byte. Exploration: bounded histories (<=3 blocks, ~30 actions) sampled, not exhaustive."),
+        "design_ref": "DESIGN.md §6 C01, §4 (model)",
+        "note": "Trusts the reference model (harness/model.go) as the statement of intended semantics; only the exported API is used.",
+        "technique": "model-based stateful property testing (rapid state machine) with reference-model oracle",
     },
 }
